@@ -46,3 +46,5 @@ pub use cli::Cli;
 pub use generator::Generator;
 pub use mutators::{EmissionSnapshot, Mutator, MutatorKind};
 pub use protocol::Version;
+#[cfg(feature = "verif-hooks")]
+pub use generator::{verif, EntropySource, GenerationSource};
